@@ -195,6 +195,7 @@ KNOWN_SHAPES = [
     ("def fl(n: int) -> int:\n\tt = 0\n\tfor x in [1, 2, n]:\n\t\tt += x\n\treturn t\n", [('fl', [(2,), (5,)], 'int')], 'for-over-list-literal'),
     ("def lu(a: int) -> bool:\n\txs = [a, 1]\n\treturn len(xs) < a - 5\n", [('lu', [(2,), (9,)], 'bool')], 'len-unsigned-compare'),
     # repaired shapes, kept as regression inputs
+    ("def cq(n: int, d: int) -> int:\n\txs = [n, d]\n\ti = n + 1\n\tdef inner(b: int) -> int:\n\t\tys = [idx + b for idx in xs]\n\t\treturn len(ys) + ys[1] + d + i\n\treturn inner(1)\n", [('cq', [(2, 3), (5, 1)], 'int')], 'closure-with-comprehension'),
     ("def cc(n: int) -> int:\n\tdef one(q: int) -> int:\n\t\treturn q + n\n\tdef two(q: int) -> int:\n\t\treturn one(q) * 2\n\tw = (lambda q: one(q) + 1)(n)\n\treturn two(n) + w\n", [('cc', [(2,), (5,)], 'int')], 'closure-calls-closure'),
     ("def rb(a: int) -> int:\n\ttotal = 0\n\tfor i in range(a & 3):\n\t\ttotal += i\n\tys = [a, 1, 3]\n\tys.insert(a & 1, 9)\n\treturn total + ys[0] + ys.pop(a & 1)\n", [('rb', [(200,), (7,)], 'int')], 'range-and-index-grouping'),
     ("def dg(a: int, s: str) -> int:\n\td = {'x': a}\n\treturn d.get('y', 0) + len(d) + len(str(a) + s) * 2\n", [('dg', [(3, 'ab')], 'int')], 'call-result-grouping'),
